@@ -178,9 +178,10 @@ static Ref build_ref(const Conf &conf){
         R.tol = (R.fam == F_WAVELET) ? 1e-7 : 1e-9;
         { TasmanianSparseGrid h; Cfg h0 = conf.host; h0.outs = 0; make(h, h0); auto HP = split(h.getPoints(), R.d); for(auto &p : R.U) if (minus({p}, HP).size()) R.beyond = true; }
         { std::ostringstream o; bool one = true; if (R.lower_family()) for(size_t l=1;l<R.N1.size();l++) if (R.N1[l] - R.N1[l-1] != 1) one = false;
-          if (R.fam == F_LOCALP) o << IO::getRuleString(t.rule) << ":order" << t.order << (R.beyond ? ":beyond-initial" : ""); else if (R.fam == F_WAVELET) o << "wavelet:order" << t.order << (R.beyond ? ":beyond-initial" : "");
+          // Global/Fourier keep a list of registered tensors: deliveries outside the initial grid take different paths, the class is part of the tag
+          if (R.fam == F_LOCALP) o << IO::getRuleString(t.rule) << ":order" << t.order; else if (R.fam == F_WAVELET) o << "wavelet:order" << t.order;
           else if (R.beyond && R.fam != F_SEQUENCE) o << famname(R.fam) << ":beyond-initial:" << (one ? "one-point-levels" : "multi-point-levels");
-          else if (R.fam == F_FOURIER) o << "fourier"; else o << famname(R.fam) << ":" << IO::getRuleString(t.rule) << (R.beyond ? ":beyond-initial" : ""); R.famtag = o.str(); }
+          else if (R.fam == F_FOURIER) o << "fourier"; else o << famname(R.fam) << ":" << IO::getRuleString(t.rule); R.famtag = o.str(); }
         // probes (user coordinates, interior, not nodes)
         const double base[6][2] = {{0.3127, -0.6181}, {-0.9371, 0.8713}, {0.1113, 0.4519}, {-0.4337, -0.2971}, {0.7411, 0.0917}, {-0.0631, -0.8853}};
         for(int p=0;p<6;p++) for(int j=0;j<R.d;j++){ double u = base[p][j % 2]; double x; if (t.fam == F_FOURIER){ u = 0.5 * (u + 1.0); x = t.ta.empty() ? u : t.ta[j] + u * (t.tb[j] - t.ta[j]); } else x = t.ta.empty() ? u : 0.5 * (t.tb[j] - t.ta[j]) * u + 0.5 * (t.tb[j] + t.ta[j]); R.probes.push_back(x); }
@@ -211,7 +212,7 @@ static std::string shape(const Ref &R, const Seq &s){
     return has_step ? "single-point-delivery-after-stepchild" : has_dep ? "single-point-delivery-after-" + dep : has_single ? "single-point-delivery" : "batch-only";
 }
 
-struct Fail { bool failed; std::string kind, detail; Fail() : failed(false){} Fail(bool f, const std::string &k, const std::string &d) : failed(f), kind(k), detail(d){} };
+struct Fail { bool failed; std::string kind, detail; bool completion = false; Fail() : failed(false){} Fail(bool f, const std::string &k, const std::string &d) : failed(f), kind(k), detail(d){} };
 struct Obs { unsigned L = 0; int nl = 0; std::vector<double> pts; };
 static long g_evals = 0, g_transitions = 0; // accumulated by run_seq (caller resets)
 static std::vector<unsigned> g_trace;       // (loaded mask, parked count) after each delivery of the last sequence
@@ -293,22 +294,23 @@ static Fail run_seq(const Ref &R, const Seq &s){
         // ---- after the last delivery
         std::string when = "after the last delivery of " + batches_str(R, s);
         std::vector<double> ybefore; step = "evaluateBatch";
-        if (!compare_surrogate(R, *g, R.yref, f, when.c_str(), &ybefore)) return f;
+        bool same = compare_surrogate(R, *g, R.yref, f, when.c_str(), &ybefore);
+        { std::ostringstream dg; dg << o.L << ":"; for(double v : ybefore) dg << vf::hexd(v) << ","; g_final_digest = vf::digest(dg.str()); } // outcome of this sequence (also when it differs)
+        if (!same) return f;
         if (!nodal(R, *g, o, f, when.c_str())) return f;
-        { std::ostringstream dg; dg << o.L << ":"; for(double v : ybefore) dg << vf::hexd(v) << ","; g_final_digest = vf::digest(dg.str()); }
         // ---- completion batch: parked samples must still be there
         if (R.nu > R.n){
             std::vector<double> x, y; for(int u=R.n; u<R.nu; u++){ x.insert(x.end(), R.U[u].begin(), R.U[u].end()); y.insert(y.end(), R.V[u].begin(), R.V[u].end()); D |= 1u << u; }
             step = "loadConstructedPoints(completion)"; g->loadConstructedPoints(x, y); g_transitions++;
             when = "after the completion batch following " + batches_str(R, s);
-            step = "observe"; if (!observe(R, *g, o, f, when.c_str())) return f;
+            step = "observe"; if (!observe(R, *g, o, f, when.c_str())){ f.completion = true; return f; }
             unsigned lo, hi; R.admissible(D, lo, hi); g_evals++;
-            if (lo & ~o.L){ unsigned miss = lo & ~o.L; bool old = (miss & ((1u << R.n) - 1)) != 0; f = {true, old ? "parked-sample-not-promoted" : "admissible-not-loaded", when + ": admissible " + maskstr(lo) + ", loaded only " + maskstr(o.L) + (old ? " - a sample delivered earlier and parked is not loaded although its prerequisites have arrived" : "")}; return f; }
-            if (o.L & ~hi){ f = {true, "inadmissible-loaded", when + ": admissible " + maskstr(hi) + ", loaded " + maskstr(o.L)}; return f; }
-            if (Lprev & ~o.L){ f = {true, "loaded-point-vanished", when + ": loaded set shrank"}; return f; }
-            step = "evaluateBatch"; if (!compare_surrogate(R, *g, R.yrefC, f, when.c_str(), &ybefore)) return f;
-            if (!nodal(R, *g, o, f, when.c_str())) return f;
-            if (s.q){ step = "getCandidateConstructionPoints"; if (!query(R, *g, s.q, o, f, b)) return f; }
+            if (lo & ~o.L){ unsigned miss = lo & ~o.L; bool old = (miss & ((1u << R.n) - 1)) != 0; f = {true, old ? "parked-sample-not-promoted" : "admissible-not-loaded", when + ": admissible " + maskstr(lo) + ", loaded only " + maskstr(o.L) + (old ? " - a sample delivered earlier and parked is not loaded although its prerequisites have arrived" : "")}; f.completion = true; return f; }
+            if (o.L & ~hi){ f = {true, "inadmissible-loaded", when + ": admissible " + maskstr(hi) + ", loaded " + maskstr(o.L)}; f.completion = true; return f; }
+            if (Lprev & ~o.L){ f = {true, "loaded-point-vanished", when + ": loaded set shrank"}; f.completion = true; return f; }
+            step = "evaluateBatch"; if (!compare_surrogate(R, *g, R.yrefC, f, when.c_str(), &ybefore)){ f.completion = true; return f; }
+            if (!nodal(R, *g, o, f, when.c_str())){ f.completion = true; return f; }
+            if (s.q){ step = "getCandidateConstructionPoints"; if (!query(R, *g, s.q, o, f, b)) f.completion = true; return f; }
         }
         // ---- finishConstruction leaves the loaded state alone
         step = "finishConstruction"; g->finishConstruction(); g_transitions++;
@@ -325,8 +327,10 @@ static Fail run_seq(const Ref &R, const Seq &s){
 }
 
 // query_only: the same deliveries without candidate queries pass, i.e. the query itself changed the outcome
-static std::string signature(const Ref &R, const Seq &s, const std::string &kind, bool query_only){
-    return std::string("C09:") + (s.rtpos >= 0 ? "roundtrip-mid-construction:" : "") + kind + ":" + R.famtag + ":" + shape(R, s) + (query_only ? ":after-candidate-query" : "");
+// completion: the failure was observed after the completion batch (its shape is what matters then)
+static std::string signature(const Ref &R, const Seq &s, const std::string &kind, bool query_only, bool completion = false){
+    std::string sh = query_only ? "after-candidate-query" : completion ? (R.nu - R.n == 1 ? "single-point-completion" : "batch-completion") : shape(R, s);
+    return std::string("C09:") + (s.rtpos >= 0 ? "roundtrip-mid-construction:" : "") + kind + ":" + R.famtag + ":" + sh;
 }
 
 // ------------------------------------------------------------------------------------------------ shared memory of one unit
@@ -346,7 +350,7 @@ struct Shm {
 static std::vector<int> unrank(long k, int n){ std::vector<int> pool(n), perm; std::iota(pool.begin(), pool.end(), 0); std::vector<long> fact(n + 1, 1); for(int i=1;i<=n;i++) fact[i] = fact[i-1] * i;
     for(int i=n; i>=1; i--){ long f = fact[i-1]; int j = (int)(k / f); k %= f; perm.push_back(pool[j]); pool.erase(pool.begin() + j); } return perm; }
 
-static std::vector<int> qmodes(const Ref &R){ std::vector<int> q = {0, 1}; if (thorough() && R.n <= 6) q.push_back(2); return q; }
+static std::vector<int> qmodes(const Ref &R){ std::vector<int> q = {0, 1}; if (thorough() && R.n <= 5) q.push_back(2); return q; }
 
 // Step s = (permutation, composition). Runs it for every query mode (mode 0 first) and, if asked, every round-trip variant of modes 0 and 1;
 // records results in shm; emits violations (capped per signature).
@@ -361,7 +365,7 @@ static void run_step(const Ref &R, const std::string &unit, Shm *sh, long s, boo
         if (!g_final_digest.empty()) sh->add_digest(g_final_digest);
         if (!f.failed){ sh->bump(sq.rtpos >= 0 ? "equal to the one-batch load (with a write/read between two deliveries)" : sq.q ? "equal to the one-batch load (candidate queries between deliveries)" : "equal to the one-batch load"); return; }
         if (sq.rtpos >= 0 && twin_failed){ sh->inherited++; sh->bump("round trip of a delivery sequence that already differs without it"); return; }
-        std::string sig = signature(R, sq, f.kind, sq.q != 0 && !noquery_failed); sh->nviol++;
+        std::string sig = signature(R, sq, f.kind, sq.q != 0 && !noquery_failed, f.completion); sh->nviol++;
         if (sh->bump(sig) <= 3) vf::violation(sig, unit, sq.json(R), f.detail);
     };
     sh->cur = s; bool base_failed = false; int nb = __builtin_popcount(q.mask) + 1;
@@ -383,11 +387,13 @@ static int npoints(const Cfg &c){ TasmanianSparseGrid g; Cfg c0 = c; c0.outs = 0
 static std::vector<Pt> points_of(const Cfg &c){ TasmanianSparseGrid g; Cfg c0 = c; c0.outs = 0; make(g, c0); return split(g.getPoints(), c.dims); }
 
 struct Lattice {
-    std::vector<Conf> confs; std::set<std::string> seen; int nmax, nmin = 3;
+    std::vector<Conf> confs; std::set<std::string> seen; int nmax, nmin = 3; bool variant = false;
     void add(const std::string &cls, Cfg host, Cfg target, std::vector<Pt> orphans = {}, std::vector<Pt> completion = {}, bool rt = false, int allow = 0){
         Conf c; c.cls = cls; c.host = host; c.target = target; c.orphans = orphans; c.completion = completion; c.rt = rt;
         int n; try{ n = (cls == "points" ? 0 : npoints(target)) + (int) orphans.size(); }catch(std::exception &){ return; }
         if (n < nmin || n > std::max(nmax, allow) || n + (int) completion.size() > 12) return;
+        if (n >= 6 && variant && cls != "full") return;                      // budget: 6-sample sets of the outputs/transform variants only as full grids
+        if (n >= 7 && cls != "full" && !(cls == "beyond" && host.depth == 0 && target.rule == rule_rleja && target.fam == F_GLOBAL)) return;
         if (seen.insert(c.str()).second) confs.push_back(c);
     }
     // full / subset / beyond variants of one target (host = target, host = deeper grid, host = shallower grid)
@@ -403,6 +409,7 @@ static std::vector<Conf> lattice(){
     for(int outs : OUTS) for(int tr = 0; tr < 2; tr++){
         bool variant = (outs == 2 || tr == 1);         // the plain variant carries the widest lattice
         if (outs == 2 && tr == 1 && !th) continue;
+        L.variant = variant; if (th && variant && !(outs == 2 && tr == 1)) L.nmax = 5; else L.nmax = th ? 6 : 5;
         auto T = [&](Cfg c){ if (tr) transform(c); return c; };
         bool rt = th && !variant;
         // ---------------- Global nested rules
@@ -453,7 +460,9 @@ static std::vector<Conf> lattice(){
         L.family(T(cW(3, 1, outs, 0)), {T(cW(3, 1, outs, 1))}, {}, rt);
     }
     // ---------------- orphan configurations: complete part + samples that cannot be admitted until the completion batch arrives
+    L.nmax = th ? 6 : 5;
     for(int outs : OUTS){
+        L.variant = (outs == 2);
         auto orph = [&](Cfg host, Cfg target, Cfg big, size_t norph){ // orphans = up to 'norph' points of big \ target that the reference model does not admit, completion = the rest
             std::vector<Pt> extra; int nt = 0; try{ extra = minus(points_of(big), points_of(target)); nt = npoints(target); }catch(std::exception &){ return; }
             if (extra.size() < 2 || nt + extra.size() > 12) return;
@@ -546,9 +555,9 @@ int main(int argc, char **argv){
         if (!R.ref_mismatch.empty()) vf::violation("C09:one-batch-construction-differs-from-loadNeededValues:" + R.famtag, "replay", s.json(R), R.ref_mismatch);
         vf::Outcome o = vf::run_child([&](int fd){
             bool noquery_failed = true; if (s.q != 0){ Seq t = s; t.q = 0; t.rtpos = -1; noquery_failed = run_seq(R, t).failed; }
-            Fail f = run_seq(R, s); if (f.failed) vf::wr(fd, std::string(s.q != 0 && !noquery_failed ? "Q" : "-") + f.kind + "\n" + f.detail); }, 120.0);
+            Fail f = run_seq(R, s); if (f.failed) vf::wr(fd, std::string(s.q != 0 && !noquery_failed ? "Q" : "-") + (f.completion ? "C" : "-") + f.kind + "\n" + f.detail); }, 120.0);
         if (o.kind != vf::Outcome::OK){ std::string cls = (o.kind == vf::Outcome::SANITIZER) ? o.sanitizer_class() : o.describe(); vf::violation(signature(R, s, "crash:" + cls, false), "replay", s.json(R), o.describe() + ": " + o.err.substr(0, 1500)); }
-        else if (!o.out.empty()){ size_t p = o.out.find('\n'); vf::violation(signature(R, s, o.out.substr(1, p - 1), o.out[0] == 'Q'), "replay", s.json(R), o.out.substr(p + 1)); }
+        else if (!o.out.empty()){ size_t p = o.out.find('\n'); vf::violation(signature(R, s, o.out.substr(2, p - 2), o.out[0] == 'Q', o.out[1] == 'C'), "replay", s.json(R), o.out.substr(p + 1)); }
         vf::emit(vf::J().s("t","summary").s("replay", o.describe())); return 0;
     }
     auto confs = lattice();
@@ -559,7 +568,7 @@ int main(int argc, char **argv){
     { std::vector<std::pair<double,size_t>> ord; for(size_t i=0;i<confs.size();i++){ int n = 0; try{ n = (confs[i].cls == "points" ? 0 : npoints(confs[i].target)) + (int) confs[i].orphans.size(); }catch(...){} double c = 1; for(int k=2;k<=n;k++) c *= 2.0 * k; if (confs[i].rt && thorough() && n <= 5) c *= 4; ord.push_back({-c, i}); }
       std::stable_sort(ord.begin(), ord.end()); std::vector<Conf> s; for(auto &p : ord) s.push_back(confs[p.second]); confs = s; }
     size_t done = vf::parallel_units(confs.size(), (int) A.geti("--workers", 8), [&](size_t ui){ run_unit(confs[ui]); });
-    std::string bound = std::string("every permutation x every batch composition x query modes ") + (thorough() ? "{none, weights/classic, estimated/fds}" : "{none, weights/classic}") + " of target sets with n <= " + (thorough() ? "6 (selected n = 7)" : "5") + " samples"
+    std::string bound = std::string("every permutation x every batch composition x query modes ") + (thorough() ? "{none, weights/classic, estimated/fds}" : "{none, weights/classic}") + " of target sets with n <= " + (thorough() ? "6 (selected n = 7; third query mode for n <= 5)" : "5") + " samples"
         + (thorough() ? "; write/read round trip at every position x {binary, ascii} for n <= 5" : "") + "; " + std::to_string(confs.size()) + " configurations";
     vf::emit(vf::J().s("t","summary").i("units_total", (long long) confs.size()).i("units_done", (long long) done).s("bound", bound).b("exhaustive", done == confs.size() && !vf::past_deadline()));
     return 0;
